@@ -13,7 +13,7 @@ var zzQueryKeys = []string{"a", "b", "c", "d", "e", "f", "g"}
 // index "i1" through the real secondaryIndexGet / newSecondaryIndexListIterator /
 // newSecondaryIndexRangeScanIterator, over a DB (real ProcessWrite with the real callbacks) that holds
 // a subset (mask) of three i1 entries, plus entries with the same secondary keys in the neighbouring
-// indexes "i0" and "i2", a session and user keys. The answer must come from i1 and equal the answer of
+// indexes "i0" and "i2" and in indexes whose names extend / are extended by the queried name ("i1-x", "i"), a session and user keys. The answer must come from i1 and equal the answer of
 // a sorted reference of i1's entries.
 func ZZIndexQuery(mask, q, ct int) {
 	m := &zzKV{}
@@ -22,7 +22,7 @@ func ZZIndexQuery(mask, q, ct int) {
 	var present []int
 	for i, sk := range zzSecKeys {
 		pk := "p" + string(rune('1'+i))
-		idx := []*proto.SecondaryIndex{{IndexName: "i0", SecondaryKey: sk}, {IndexName: "i2", SecondaryKey: sk}}
+		idx := []*proto.SecondaryIndex{{IndexName: "i0", SecondaryKey: sk}, {IndexName: "i2", SecondaryKey: sk}, {IndexName: "i1-x", SecondaryKey: sk}, {IndexName: "i", SecondaryKey: sk}}
 		if mask&(1<<i) != 0 {
 			idx = append(idx, &proto.SecondaryIndex{IndexName: "i1", SecondaryKey: sk})
 			present = append(present, i)
